@@ -8,7 +8,7 @@ PROPS["C14"] = dict(
         "Kust.C14.setfield_get", "Kust.C14.setfield_frame", "Kust.C14.setfield_idem",
         "Kust.C14.clear_absent_noop", "Kust.C14.clear_frame", "Kust.Fns.pathGet_nocreate_doc",
         "Kust.C14.create_then_lookup", "Kust.C14.match_nocreate_doc", "Kust.C14.match_denotes", "Kust.C14.denote_resolves",
-        "Kust.C14.match_positions_resolve", "Kust.C14.match_positions_resolve_create", "Kust.C14.split_plain", "Kust.C14.merge_plain", "Kust.C14.filter_denotes", "Kust.C14.splitScan_joinEsc", "Kust.C14.scan_joinEsc",
+        "Kust.C14.match_positions_resolve", "Kust.C14.match_positions_resolve_create", "Kust.C14.split_plain", "Kust.C14.merge_plain", "Kust.C14.filter_denotes", "Kust.C14.splitScan_joinEsc", "Kust.C14.scan_joinEsc", "Kust.C14.split_is_scan", "Kust.C14.split_joinEsc", "Kust.C14.smarter_plain",
     ],
     components=["fns.lookup", "fns.lookup2", "fns.setfield", "fns.clear", "fns.setelem", "fieldspec.apply", "match.path", "path.split"],
     oracle=False,
